@@ -112,6 +112,78 @@ theorem sortByAmount_ascending (ks : Keys) : (sortByAmount ks).Pairwise (fun a b
   have := sortByAmount_sorted ks
   simpa [amountLe] using this
 
+theorem keysetId_perm_eq {ks ks' : Keys} (hp : ks.Perm ks') (hd : (ks.map (·.1)).Nodup) : keysetId ks = keysetId ks' := by
+  rw [keysetId_eq, keysetId_eq, sortByAmount_perm_eq hp hd]
+
+open Secp256k1 in
+theorem keysOfPoints_cons (x : Nat × Point) (rest : List (Nat × Point)) :
+    keysOfPoints (x :: rest) = (keyOfPoint x).bind (fun k => (keysOfPoints rest).map (fun tl => k :: tl)) := by
+  simp only [keysOfPoints]
+
+open Secp256k1 in
+theorem keysOfPoints_cons_some {x : Nat × Point} {rest : List (Nat × Point)} {ks : Keys}
+    (h : keysOfPoints (x :: rest) = some ks) :
+    ∃ k tl, keyOfPoint x = some k ∧ keysOfPoints rest = some tl ∧ ks = k :: tl := by
+  simp only [keysOfPoints_cons, Option.bind_eq_some_iff, Option.map_eq_some_iff] at h
+  obtain ⟨k, hk, tl, htl, rfl⟩ := h
+  exact ⟨k, tl, hk, htl, rfl⟩
+
+open Secp256k1 in
+theorem keyOfPoint_amount {x : Nat × Point} {k : Nat × Bytes} (h : keyOfPoint x = some k) : k.1 = x.1 := by
+  simp only [keyOfPoint, Option.map_eq_some_iff] at h
+  obtain ⟨b, _, rfl⟩ := h
+  rfl
+
+open Secp256k1 in
+/-- Serialising keeps the amounts, in order. -/
+theorem keysOfPoints_amounts {l : List (Nat × Point)} {ks : Keys} (h : keysOfPoints l = some ks) :
+    ks.map (·.1) = l.map (·.1) := by
+  induction l generalizing ks with
+  | nil => simp only [keysOfPoints, Option.some.injEq] at h; subst h; rfl
+  | cons x rest ih =>
+    obtain ⟨k, tl, hk, htl, rfl⟩ := keysOfPoints_cons_some h
+    simp only [List.map_cons, ih htl, keyOfPoint_amount hk]
+
+open Secp256k1 in
+/-- Serialising a rearranged list of points gives the rearranged list of keys. -/
+theorem keysOfPoints_perm {l l' : List (Nat × Point)} (hp : l.Perm l') :
+    ∀ ks, keysOfPoints l = some ks → ∃ ks', keysOfPoints l' = some ks' ∧ ks.Perm ks' := by
+  induction hp with
+  | nil => intro ks h; exact ⟨ks, h, List.Perm.refl _⟩
+  | cons x _ ih =>
+    intro ks h
+    obtain ⟨k, tl, hk, htl, rfl⟩ := keysOfPoints_cons_some h
+    obtain ⟨tl', htl', hperm⟩ := ih tl htl
+    exact ⟨k :: tl', by simp only [keysOfPoints_cons, hk, htl', Option.bind_some, Option.map_some], hperm.cons k⟩
+  | swap x y l =>
+    intro ks h
+    obtain ⟨ky, tl1, hky, h1, rfl⟩ := keysOfPoints_cons_some h
+    obtain ⟨kx, tl, hkx, htl, rfl⟩ := keysOfPoints_cons_some h1
+    exact ⟨kx :: ky :: tl, by simp only [keysOfPoints_cons, hkx, hky, htl, Option.bind_some, Option.map_some],
+      List.Perm.swap kx ky tl⟩
+  | trans _ _ ih1 ih2 =>
+    intro ks h
+    obtain ⟨ks1, h1, p1⟩ := ih1 ks h
+    obtain ⟨ks2, h2, p2⟩ := ih2 ks1 h1
+    exact ⟨ks2, h2, p1.trans p2⟩
+
+open Secp256k1 in
+/-- The id computed from points is the same for every arrangement of a key set with distinct amounts. -/
+theorem keysetIdOfPoints_perm {l l' : List (Nat × Point)} (hp : l.Perm l') (hd : (l.map (·.1)).Nodup) :
+    keysetIdOfPoints l = keysetIdOfPoints l' := by
+  unfold keysetIdOfPoints
+  cases h : keysOfPoints l with
+  | some ks =>
+    obtain ⟨ks', h', p⟩ := keysOfPoints_perm hp ks h
+    rw [h', Option.map_some, Option.map_some, keysetId_perm_eq p (by rw [keysOfPoints_amounts h]; exact hd)]
+  | none =>
+    cases h' : keysOfPoints l' with
+    | none => rfl
+    | some ks' =>
+      obtain ⟨ks, hk, _⟩ := keysOfPoints_perm hp.symm ks' h'
+      rw [h] at hk
+      exact absurd hk (by simp)
+
 end KeysetId
 
 /-! ## BIP32 -/
@@ -309,6 +381,14 @@ theorem keysFrom_privs (M : Nat → Point → Point) (ks : XPrv) (js : List Nat)
     simp only [keyAt, Option.map_eq_some_iff] at hk
     obtain ⟨c, hc, rfl⟩ := hk
     simp only [List.map_cons, ih htl, hc, Option.map_some]
+
+/-- The id of a keyset does not depend on the order in which its keys are enumerated (amounts distinct). -/
+theorem keysetIdOf_perm {keys keys' : List Key} (hp : keys.Perm keys') (hd : (keys.map (·.amount)).Nodup) :
+    keysetIdOf keys = keysetIdOf keys' := by
+  unfold keysetIdOf
+  apply KeysetId.keysetIdOfPoints_perm (hp.map _)
+  rw [List.map_map]
+  exact hd
 
 end MintKeys
 
